@@ -180,6 +180,21 @@ fn arr_of(dt: &DataType, len: usize, rng: &mut Rng) -> ArrayData {
     vcore::mk::array(rng, dt, len, vcore::mk::Cfg::tame(0)).to_data()
 }
 
+/// the first, a middle and the last index of 0..n (distinct)
+pub fn positions(n: usize) -> Vec<(&'static str, usize)> {
+    let mut v = vec![];
+    if n >= 1 {
+        v.push(("first", 0));
+    }
+    if n >= 3 {
+        v.push(("mid", n / 2));
+    }
+    if n >= 2 {
+        v.push(("last", n - 1));
+    }
+    v
+}
+
 /// all single corruptions (and a few legal variations) of a valid candidate
 pub fn corruptions(p: &Parts, rng: &mut Rng) -> Vec<(String, Parts)> {
     let mut out: Vec<(String, Parts)> = vec![];
@@ -315,35 +330,39 @@ pub fn corruptions(p: &Parts, rng: &mut Rng) -> Vec<(String, Parts)> {
         }
     }
 
+    // Every per-element check of the validators is probed at the first, a middle and the last
+    // element of the addressed window (and, through the sliced variant of every base array, with
+    // array offset 0 and > 0).
+
     // ---- offsets (binary / utf8 / list / map)
     if matches!(k, "bin" | "utf8" | "list" | "map") && !p.buffers.is_empty() {
         let w = fixed_width(p, 0).unwrap();
         let limit = if matches!(k, "bin" | "utf8") { p.buffers.get(1).map(|b| b.len()).unwrap_or(0) } else { p.children.first().map(|c| c.len()).unwrap_or(0) } as i64;
         let o = |i: usize| p.peek(0, w, p.offset + i);
         if p.len >= 1 {
-            let i = rng.below(p.len);
-            if let (Some(a), Some(_)) = (o(i), o(i + 1)) {
-                let _ = a;
-                // o[i] > o[i+1]
-                add("offset_out_of_order", o(i + 1).and_then(|b| p.poke(0, w, p.offset + i, b + 1)));
+            // value i: its start offset above its end offset
+            for (pl, i) in positions(p.len) {
+                add(&format!("offset_out_of_order@{pl}"), o(i + 1).and_then(|b| p.poke(0, w, p.offset + i, b + 1)));
             }
-            add("offset_first_negative", p.poke(0, w, p.offset, -1));
-            add("offset_last_past_end", p.poke(0, w, p.offset + p.len, limit + 1));
+            // each of the len+1 offsets: negative / past the end of the data
+            for (pl, i) in positions(p.len + 1) {
+                add(&format!("offset_{pl}_negative"), p.poke(0, w, p.offset + i, if i == 0 { -1 } else { -3 }));
+                add(&format!("offset_{pl}_past_end"), p.poke(0, w, p.offset + i, limit + 1 + i as i64));
+            }
             add("offset_last_2pow40", if w == 8 { p.poke(0, w, p.offset + p.len, 1 << 40) } else { p.poke(0, w, p.offset + p.len, i32::MAX as i64) });
-            if p.len >= 2 {
-                let m = 1 + rng.below(p.len - 1);
-                add("offset_mid_negative", p.poke(0, w, p.offset + m, -3));
-                add("offset_mid_past_end", p.poke(0, w, p.offset + m, limit + 7));
+            if let (Some(prev), true) = (o(p.len - 1), p.len >= 1) {
+                if prev >= 1 {
+                    add("offset_last_below_previous", p.poke(0, w, p.offset + p.len, prev - 1));
+                }
             }
             // all offsets shifted: first offset > 0 is legal when it stays within the data
-            if let (Some(first), Some(last)) = (o(0), o(p.len)) {
+            if let Some(last) = o(p.len) {
                 if last < limit {
                     let mut b = p.buf_vec(0);
                     for j in 0..=p.len {
                         let v = get_int(&b, w, p.offset + j).unwrap();
                         set_int(&mut b, w, p.offset + j, v + 1);
                     }
-                    let _ = first;
                     add("offsets_all_plus_1", Some(p.with_buf(0, &b)));
                 }
             }
@@ -357,35 +376,52 @@ pub fn corruptions(p: &Parts, rng: &mut Rng) -> Vec<(String, Parts)> {
         let w = fixed_width(p, 0).unwrap();
         let data = p.buf_vec(1);
         let offs: Vec<i64> = (0..=p.len).filter_map(|i| p.peek(0, w, p.offset + i)).collect();
-        if offs.len() == p.len + 1 {
+        let sane = offs.len() == p.len + 1 && offs.windows(2).all(|x| x[0] <= x[1]) && offs[0] >= 0 && offs[p.len] as usize <= data.len();
+        if sane {
             let lo = offs[0] as usize;
             let hi = offs[p.len] as usize;
-            if hi > lo && hi <= data.len() {
-                let pos = lo + rng.below(hi - lo);
-                let mut d2 = data.clone();
-                d2[pos] = 0xFF;
-                add("utf8_byte_ff", Some(p.with_buf(1, &d2)));
-                let mut d2 = data.clone();
-                d2[pos] = 0x80; // a continuation byte in place of whatever was there
-                add("utf8_stray_continuation", Some(p.with_buf(1, &d2)));
+            if hi > lo {
                 // garbage outside the referenced range is legal
                 let mut d2 = data.clone();
                 d2.extend_from_slice(&[0xFF, 0xC0, 0x80]);
                 add("utf8_garbage_after_last_offset", Some(p.with_buf(1, &d2)));
             }
-            // multi-byte characters
+            // an invalid byte inside the first / a middle / the last value
+            for (pl, i) in positions(p.len) {
+                let (a, b) = (offs[i] as usize, offs[i + 1] as usize);
+                if b > a {
+                    let pos = a + rng.below(b - a);
+                    let mut d2 = data.clone();
+                    d2[pos] = 0xFF;
+                    add(&format!("utf8_byte_ff@{pl}"), Some(p.with_buf(1, &d2)));
+                    let mut d2 = data.clone();
+                    d2[pos] = 0x80; // a continuation byte in place of whatever was there
+                    add(&format!("utf8_stray_continuation@{pl}"), Some(p.with_buf(1, &d2)));
+                }
+            }
+            // Each individual offset (first / middle / last of the window) moved into the middle of a
+            // multi-byte character; the values buffer stays valid UTF-8 as a whole and the offsets stay
+            // monotone.  `fwd`: into the character that starts at the offset; `back`: into the one
+            // that ends there.
+            for (pl, i) in positions(p.len + 1) {
+                let cur = offs[i] as usize;
+                let next = if i < p.len { offs[i + 1] as usize } else { data.len() };
+                let prev = if i > 0 { offs[i - 1] as usize } else { 0 };
+                if cur < data.len() && data[cur] >= 0xC2 && cur + 1 <= next {
+                    add(&format!("utf8_offset_{pl}_into_char_fwd"), p.poke(0, w, p.offset + i, cur as i64 + 1));
+                }
+                if cur >= 1 && (0x80..0xC0).contains(&data[cur - 1]) && cur - 1 >= prev {
+                    add(&format!("utf8_offset_{pl}_into_char_back"), p.poke(0, w, p.offset + i, cur as i64 - 1));
+                }
+            }
+            // ill-formed sequences of every class in place of a well-formed character
             for i in 0..p.len {
                 let (a, b) = (offs[i] as usize, offs[i + 1] as usize);
-                if b > data.len() || a > b {
-                    continue;
-                }
                 let v = &data[a..b];
                 if let Some(j) = v.iter().position(|x| *x >= 0xC2) {
                     let n = if v[j] >= 0xF0 { 4 } else if v[j] >= 0xE0 { 3 } else { 2 };
-                    // an offset inside the character
-                    if i + 1 <= p.len && j + 1 < v.len() {
-                        // move o[i+1] (or o[i]) into the character: value i ends in its middle
-                        add("utf8_offset_splits_char", p.poke(0, w, p.offset + i + 1, (a + j + 1) as i64));
+                    if j + n > v.len() {
+                        continue;
                     }
                     let mut d2 = data.clone();
                     match n {
@@ -397,7 +433,6 @@ pub fn corruptions(p: &Parts, rng: &mut Rng) -> Vec<(String, Parts)> {
                     let mut d2 = data.clone();
                     if n == 3 { d2[a + j] = 0xE0; d2[a + j + 1] = 0x80; add("utf8_overlong_3byte", Some(p.with_buf(1, &d2))); }
                     if n == 4 { d2[a + j] = 0xF0; d2[a + j + 1] = 0x80; add("utf8_overlong_4byte", Some(p.with_buf(1, &d2))); }
-                    break;
                 }
             }
         }
@@ -412,51 +447,90 @@ pub fn corruptions(p: &Parts, rng: &mut Rng) -> Vec<(String, Parts)> {
             b[(p.offset + r) * 16..(p.offset + r + 1) * 16].copy_from_slice(&v);
             p.with_buf(0, &b)
         };
-        let lens: Vec<u32> = (0..p.len).filter_map(|r| view_at(r).map(|v| u32::from_le_bytes(v[0..4].try_into().unwrap()))).collect();
-        let short = (0..lens.len()).find(|r| lens[*r] < 12 && lens[*r] >= 1);
-        let long = (0..lens.len()).find(|r| lens[*r] > 12);
-        if let Some(r) = short {
-            let mut v = view_at(r).unwrap();
-            v[15] = 1;
-            add("view_inline_padding_nonzero", Some(put(r, v)));
-            let mut v = view_at(r).unwrap();
-            v[4] = 0xFF;
-            add("view_inline_byte_ff", Some(put(r, v)));
-            let mut v = view_at(r).unwrap();
-            v[0..4].copy_from_slice(&13u32.to_le_bytes()); // now a "long" view with garbage index/offset
-            v[8..12].copy_from_slice(&9u32.to_le_bytes());
-            add("view_short_relabelled_long", Some(put(r, v)));
-        }
-        if let Some(r) = long {
-            let v0 = view_at(r).unwrap();
-            let mut v = v0;
-            v[0..4].copy_from_slice(&(lens[r] + 100_000).to_le_bytes());
-            add("view_len_past_buffer", Some(put(r, v)));
-            let mut v = v0;
-            v[0..4].copy_from_slice(&u32::MAX.to_le_bytes());
-            add("view_len_u32max", Some(put(r, v)));
-            let mut v = v0;
-            v[8..12].copy_from_slice(&((p.buffers.len() - 1) as u32).to_le_bytes());
-            add("view_buffer_index_past_end", Some(put(r, v)));
-            let mut v = v0;
-            v[12..16].copy_from_slice(&(1u32 << 20).to_le_bytes());
-            add("view_offset_past_buffer", Some(put(r, v)));
-            let mut v = v0;
-            v[4] ^= 0x01;
-            add("view_prefix_mismatch", Some(put(r, v)));
-            // the byte right after the prefix inside the data buffer
-            let bi = u32::from_le_bytes(v0[8..12].try_into().unwrap()) as usize;
-            let off = u32::from_le_bytes(v0[12..16].try_into().unwrap()) as usize;
-            if let Some(db) = p.buffers.get(1 + bi) {
-                let mut d2 = db.as_slice().to_vec();
-                if off + 5 < d2.len() {
-                    d2[off + 5] = 0xFF;
-                    add("view_data_byte_ff", Some(p.with_buf(1 + bi, &d2)));
+        let mut dropped = false;
+        for (pl, r) in positions(p.len) {
+            let Some(v0) = view_at(r) else { continue };
+            let vlen = u32::from_le_bytes(v0[0..4].try_into().unwrap());
+            if (1..=12).contains(&vlen) {
+                let l = vlen as usize;
+                if l < 12 {
+                    let mut v = v0;
+                    v[15] = 1;
+                    add(&format!("view_inline_padding_nonzero@{pl}"), Some(put(r, v)));
                 }
-                // drop the data buffers
-                let mut q = p.clone();
-                q.buffers.truncate(1);
-                add("view_data_buffers_missing", Some(q));
+                let mut v = v0;
+                v[4] = 0xFF;
+                add(&format!("view_inline_byte_ff@{pl}"), Some(put(r, v)));
+                let mut v = v0;
+                v[0..4].copy_from_slice(&13u32.to_le_bytes()); // now a "long" view with garbage index/offset
+                v[8..12].copy_from_slice(&9u32.to_le_bytes());
+                add(&format!("view_short_relabelled_long@{pl}"), Some(put(r, v)));
+                // the value ends / starts in the middle of a code point (padding kept zero)
+                if (0x80..0xC0).contains(&v0[4 + l - 1]) {
+                    let mut v = v0;
+                    v[4 + l - 1] = 0;
+                    v[0..4].copy_from_slice(&(vlen - 1).to_le_bytes());
+                    add(&format!("view_inline_len_into_char@{pl}"), Some(put(r, v)));
+                }
+                if v0[4] >= 0xC2 && l >= 2 {
+                    let mut v = v0;
+                    v.copy_within(5..4 + l, 4);
+                    v[4 + l - 1] = 0;
+                    v[0..4].copy_from_slice(&(vlen - 1).to_le_bytes());
+                    add(&format!("view_inline_starts_in_char@{pl}"), Some(put(r, v)));
+                }
+            } else if vlen > 12 {
+                let mut v = v0;
+                v[0..4].copy_from_slice(&(vlen + 100_000).to_le_bytes());
+                add(&format!("view_len_past_buffer@{pl}"), Some(put(r, v)));
+                let mut v = v0;
+                v[0..4].copy_from_slice(&u32::MAX.to_le_bytes());
+                add(&format!("view_len_u32max@{pl}"), Some(put(r, v)));
+                let mut v = v0;
+                v[8..12].copy_from_slice(&((p.buffers.len() - 1) as u32).to_le_bytes());
+                add(&format!("view_buffer_index_past_end@{pl}"), Some(put(r, v)));
+                let mut v = v0;
+                v[12..16].copy_from_slice(&(1u32 << 20).to_le_bytes());
+                add(&format!("view_offset_past_buffer@{pl}"), Some(put(r, v)));
+                let mut v = v0;
+                v[4] ^= 0x01;
+                add(&format!("view_prefix_mismatch@{pl}"), Some(put(r, v)));
+                let bi = u32::from_le_bytes(v0[8..12].try_into().unwrap()) as usize;
+                let off = u32::from_le_bytes(v0[12..16].try_into().unwrap()) as usize;
+                if let Some(db) = p.buffers.get(1 + bi) {
+                    let d = db.as_slice();
+                    let end = off + vlen as usize;
+                    if end <= d.len() {
+                        let mut d2 = d.to_vec();
+                        d2[off + 5] = 0xFF;
+                        add(&format!("view_data_byte_ff@{pl}"), Some(p.with_buf(1 + bi, &d2)));
+                        // the view points into the middle of a code point (prefix kept consistent with the data):
+                        // it starts one byte into the character at its start / ends one byte short of its last one
+                        if d[off] >= 0xC2 && vlen > 14 {
+                            let mut v = v0;
+                            v[0..4].copy_from_slice(&(vlen - 1).to_le_bytes());
+                            v[4..8].copy_from_slice(&d[off + 1..off + 5]);
+                            v[12..16].copy_from_slice(&((off + 1) as u32).to_le_bytes());
+                            add(&format!("view_offset_into_char@{pl}"), Some(put(r, v)));
+                        }
+                        if (0x80..0xC0).contains(&d[end - 1]) && vlen > 14 {
+                            let mut v = v0;
+                            v[0..4].copy_from_slice(&(vlen - 1).to_le_bytes());
+                            add(&format!("view_len_into_char@{pl}"), Some(put(r, v)));
+                        }
+                        if end < d.len() && d[end] >= 0xC2 {
+                            let mut v = v0;
+                            v[0..4].copy_from_slice(&(vlen + 1).to_le_bytes());
+                            add(&format!("view_len_into_next_char@{pl}"), Some(put(r, v)));
+                        }
+                    }
+                    if !dropped {
+                        dropped = true;
+                        let mut q = p.clone();
+                        q.buffers.truncate(1);
+                        add("view_data_buffers_missing", Some(q));
+                    }
+                }
             }
         }
     }
@@ -465,14 +539,15 @@ pub fn corruptions(p: &Parts, rng: &mut Rng) -> Vec<(String, Parts)> {
     if k == "listview" && p.buffers.len() == 2 && p.len >= 1 {
         let w = fixed_width(p, 0).unwrap();
         let cl = p.children.first().map(|c| c.len()).unwrap_or(0) as i64;
-        let r = rng.below(p.len);
-        add("listview_offset_past_child", p.poke(0, w, p.offset + r, cl + 1));
-        add("listview_offset_negative", p.poke(0, w, p.offset + r, -1));
-        add("listview_size_negative", p.poke(1, w, p.offset + r, -1));
-        add("listview_size_past_child", p.poke(1, w, p.offset + r, cl + 1));
-        if let Some(o) = p.peek(0, w, p.offset + r) {
-            add("listview_offset_plus_size_past_child", p.poke(1, w, p.offset + r, cl - o + 1));
-            add("listview_size_to_child_end", p.poke(1, w, p.offset + r, (cl - o).max(0)));
+        for (pl, r) in positions(p.len) {
+            add(&format!("listview_offset_past_child@{pl}"), p.poke(0, w, p.offset + r, cl + 1));
+            add(&format!("listview_offset_negative@{pl}"), p.poke(0, w, p.offset + r, -1));
+            add(&format!("listview_size_negative@{pl}"), p.poke(1, w, p.offset + r, -1));
+            add(&format!("listview_size_past_child@{pl}"), p.poke(1, w, p.offset + r, cl + 1));
+            if let Some(o) = p.peek(0, w, p.offset + r) {
+                add(&format!("listview_offset_plus_size_past_child@{pl}"), p.poke(1, w, p.offset + r, cl - o + 1));
+                add(&format!("listview_size_to_child_end@{pl}"), p.poke(1, w, p.offset + r, (cl - o).max(0)));
+            }
         }
     }
 
@@ -483,13 +558,15 @@ pub fn corruptions(p: &Parts, rng: &mut Rng) -> Vec<(String, Parts)> {
         let signed = matches!(kt.as_ref(), DataType::Int8 | DataType::Int16 | DataType::Int32 | DataType::Int64);
         let vl = p.children.first().map(|c| c.len()).unwrap_or(0) as i64;
         let valid = p.valid_bits().unwrap_or(vec![true; p.len]);
-        if let Some(r) = (0..p.len).find(|i| valid[*i]) {
-            add("key_eq_dictionary_len", p.poke(0, w, p.offset + r, vl));
+        let valid_slots: Vec<usize> = (0..p.len).filter(|i| valid[*i]).collect();
+        for (pl, j) in positions(valid_slots.len()) {
+            let r = valid_slots[j];
+            add(&format!("key_eq_dictionary_len@{pl}"), p.poke(0, w, p.offset + r, vl));
             if signed {
-                add("key_negative", p.poke(0, w, p.offset + r, -1));
+                add(&format!("key_negative@{pl}"), p.poke(0, w, p.offset + r, -1));
             }
             let big = match w { 1 => if signed { 127 } else { 255 }, 2 => if signed { 32767 } else { 65535 }, 4 => if signed { i32::MAX as i64 } else { u32::MAX as i64 }, _ => if signed { i64::MAX } else { -1 /* u64::MAX */ } };
-            add("key_type_max", p.poke(0, w, p.offset + r, big));
+            add(&format!("key_type_max@{pl}"), p.poke(0, w, p.offset + r, big));
         }
         if let Some(r) = (0..p.len).find(|i| !valid[*i]) {
             add("key_out_of_range_under_null", p.poke(0, w, p.offset + r, vl + 3)); // legal
@@ -500,21 +577,22 @@ pub fn corruptions(p: &Parts, rng: &mut Rng) -> Vec<(String, Parts)> {
     if k == "union" && !p.buffers.is_empty() && p.len >= 1 {
         let DataType::Union(fs, mode) = &p.dt else { unreachable!() };
         let ids: Vec<i8> = fs.iter().map(|(i, _)| i).collect();
-        let r = rng.below(p.len);
         let undeclared = (0..127i8).find(|x| !ids.contains(x)).unwrap();
-        add("type_id_undeclared", p.poke(0, 1, p.offset + r, undeclared as i64));
-        add("type_id_negative", p.poke(0, 1, p.offset + r, -1));
-        add("type_id_127", p.poke(0, 1, p.offset + r, 127));
-        if *mode == UnionMode::Dense && p.buffers.len() == 2 {
-            if let Some(t) = p.peek(0, 1, p.offset + r) {
-                let c = ids.iter().position(|x| *x as i64 == t).unwrap_or(0);
-                let cl = p.children.get(c).map(|x| x.len()).unwrap_or(0) as i64;
-                add("dense_offset_eq_child_len", p.poke(1, 4, p.offset + r, cl));
-                add("dense_offset_negative", p.poke(1, 4, p.offset + r, -1));
-                add("dense_offset_i32max", p.poke(1, 4, p.offset + r, i32::MAX as i64));
-                // switch the type id but keep the offset: in bounds of the other child or not
-                if let Some(other) = ids.iter().find(|x| **x as i64 != t) {
-                    add("type_id_switched", p.poke(0, 1, p.offset + r, *other as i64));
+        for (pl, r) in positions(p.len) {
+            add(&format!("type_id_undeclared@{pl}"), p.poke(0, 1, p.offset + r, undeclared as i64));
+            add(&format!("type_id_negative@{pl}"), p.poke(0, 1, p.offset + r, -1));
+            add(&format!("type_id_127@{pl}"), p.poke(0, 1, p.offset + r, 127));
+            if *mode == UnionMode::Dense && p.buffers.len() == 2 {
+                if let Some(t) = p.peek(0, 1, p.offset + r) {
+                    let c = ids.iter().position(|x| *x as i64 == t).unwrap_or(0);
+                    let cl = p.children.get(c).map(|x| x.len()).unwrap_or(0) as i64;
+                    add(&format!("dense_offset_eq_child_len@{pl}"), p.poke(1, 4, p.offset + r, cl));
+                    add(&format!("dense_offset_negative@{pl}"), p.poke(1, 4, p.offset + r, -1));
+                    add(&format!("dense_offset_i32max@{pl}"), p.poke(1, 4, p.offset + r, i32::MAX as i64));
+                    // switch the type id but keep the offset: in bounds of the other child or not
+                    if let Some(other) = ids.iter().find(|x| **x as i64 != t) {
+                        add(&format!("type_id_switched@{pl}"), p.poke(0, 1, p.offset + r, *other as i64));
+                    }
                 }
             }
         }
@@ -542,14 +620,15 @@ pub fn corruptions(p: &Parts, rng: &mut Rng) -> Vec<(String, Parts)> {
                 let mut e = ends.clone();
                 e[0] = -1;
                 add("run_end_first_negative", Some(with_re(rebuild(&e, None))));
-                if n >= 2 {
-                    let i = 1 + rng.below(n - 1);
+                // every pair of neighbours: second, a middle one, the last
+                for (pl, j) in positions(n.saturating_sub(1)) {
+                    let i = j + 1;
                     let mut e = ends.clone();
                     e[i] = e[i - 1];
-                    add("run_end_repeated", Some(with_re(rebuild(&e, None))));
+                    add(&format!("run_end_repeated@{pl}"), Some(with_re(rebuild(&e, None))));
                     let mut e = ends.clone();
                     e[i - 1] = e[i] + 1;
-                    add("run_end_decreasing", Some(with_re(rebuild(&e, None))));
+                    add(&format!("run_end_decreasing@{pl}"), Some(with_re(rebuild(&e, None))));
                 }
                 // run ends stop short of offset + len
                 let mut e = ends.clone();
